@@ -187,7 +187,7 @@ open XPathV.Model
 value kind — *Evaluate's iterator produces the same sequence as Select*: for every covered plan the
 Go-like pull machine the builder creates, drained with enough fuel, reports exactly the sequence
 `sel` of the plan and ends exhausted. -/
-theorem C12_all_iterators_refine_sequence' {F : Type} [NumAlg F] (d : Doc) (cfg : ECfg) (dec : Plan → Ref → Bool) (hd : 0 < d.length)
+theorem C12_all_iterators_refine_sequence_any_predicate {F : Type} [NumAlg F] (d : Doc) (cfg : ECfg) (dec : Plan → Ref → Bool) (hd : 0 < d.length)
     (p : Plan) (q : PQ2) (h : PQ2.ofPlan p = some q) (hs : NeedsWF p → WF d)
     (c : Ref) (hdec : q.DecOK' (F := F) d cfg dec c) (hg : Good d c) :
     ∃ l, sel (F := F) d cfg p c = .ok l ∧
